@@ -15,6 +15,15 @@ def run(pid, tier, seed, replay=None):
     def tie(res):
         t = C.evaluate(pid, seed, tier)
         t['tie'] = 'D: ' + what
+        if pid == 'C11':
+            # swap and clear of map_impl: exercised through tagged_bag (a map with generated keys) against coq/Bag.v
+            from . import bags as BG
+            bg = BG.evaluate(seed, 64 if tier == 'quick' else 1500, tag=tier[0])
+            t['failures'] = t.get('failures', []) + [f for f in bg.get('failures', []) if 'tagged' in f.get('what', '')]
+            if bg.get('msg') and not t.get('msg'):
+                t['msg'] = bg['msg']; t['ok'] = False
+            t.setdefault('extra', {})['map_swap_clear_histories_via_tagged_bag'] = bg.get('stats', {})
+            t['tie'] += '; map swap / clear / erase / visit_if_exists / all_gather through tagged_bag histories against coq/Bag.v (tstep evaluated by vm_compute)'
         return t
     def search():
         found = []
